@@ -141,9 +141,10 @@ Inductive branch := BErr | BEqui | BSolve.
 (* _get_shift_rule up to the branch decision *)
 Definition get_shift_rule_branch (freqs : list Q) (shifts : option (list Q)) : branch :=
   let n := length freqs in
-  match sortQ freqs with
+  let fs := sortQ freqs in
+  match fs with
   | [] => BErr                                                      (* stack of nothing raises *)
-  | fmin :: _ as fs =>
+  | fmin :: _ =>
       if has_adj_dup fs || Qle_bool fmin 0 then BErr else
       match shifts with
       | None => if equidistant_branch_test fs then BEqui else BSolve
